@@ -26,6 +26,9 @@ ITEM_SPECS = [
     {"kind": "bytes", "o": {}},
     {"kind": "url", "o": {}},
     {"kind": "hostname", "o": {}},
+    # item fields with a custom validator that rewrites the item: what is stored is its result, once
+    {"kind": "string", "o": {}, "validator": "tag"},
+    {"kind": "int", "o": {}, "validator": "tag"},
 ]
 KEY_SPECS = [
     {"kind": "string", "o": {"transform_strip": True, "transform_case": "upper"}},
@@ -267,6 +270,10 @@ class ContainerScenario(Scenario):
                 return None
             norms.append(v)
         src = op.get("src", "list")
+        if spec.get("validator") == "tag" and (src in ("proxy-same-cfg", "proxy-other-cfg") or (src == "proxy-other-field" and op.get("other", name) == name)):
+            # items that this very field has already normalised are put in again: with a validator that is not idempotent
+            # the statement does not say whether they are normalised a second time, so such sources are not used
+            src = "list"
         if src == "list":
             return list(raws), norms
         if src == "tuple":
@@ -281,17 +288,15 @@ class ContainerScenario(Scenario):
             return getattr(st.cfgs[1 - c], name), list(st.m[1 - c][name])
         if src == "proxy-other-field":
             other = op.get("other", name)
-            if other == name or canon(st.lspec[other]) != canon(spec):
-                # items of a different field are acceptable only if that field's items are valid here
-                oitems = list(st.m[c][other])
-                out = []
-                for x in oitems:
-                    v, ok = self.norm_item(st, spec, x)
-                    if not ok:
-                        return list(raws), norms
-                    out.append(v)
-                return getattr(st.cfgs[c], other), out
-            return getattr(st.cfgs[c], other), list(st.m[c][other])
+            # items of another field are put in: they are normalised by this field (and must be acceptable to it)
+            oitems = list(st.m[c][other])
+            out = []
+            for x in oitems:
+                v, ok = self.norm_item(st, spec, x)
+                if not ok:
+                    return list(raws), norms
+                out.append(v)
+            return getattr(st.cfgs[c], other), out
         return list(raws), norms
 
     def do_list(self, st, op, rec):
@@ -521,6 +526,9 @@ class ContainerScenario(Scenario):
                 m.update(kw_norm)
             cmpd(what, *self._both(lambda: proxy.update(raw_d, **kw_raw), ref))
         elif what == "update_proxy":
+            if (d.get("vf") or {}).get("validator") == "tag" or (d.get("kf") or {}).get("validator") == "tag":
+                rec.log("skip-same-field-source")      # see make_source: re-normalisation of this field's own entries is left open
+                return
             other = getattr(st.cfgs[1 - c], name)
             om = st.m[1 - c][name]
             cmpd(what, *self._both(lambda: proxy.update(other), lambda: m.update(dict(om))))
@@ -530,6 +538,7 @@ class ContainerScenario(Scenario):
             if e is None and r is not proxy:
                 rec.fail("C17/identity", "C17/ior-returns-new-object", "|= returned a different object")
         elif what == "or":
+            # `|` is not among the operations C17 lists (only |=): used as a query with entries that are already normal
             r, e, r2, e2 = self._both(lambda: proxy | dict(norm_pairs), lambda: m | dict(norm_pairs))
             cmpd(what, dict(r) if r is not None else r, e, r2, e2)
         elif what == "pop":
